@@ -25,8 +25,9 @@ from . import C22, C23
 PROBE = {'filter': ['proc', 'mod'], 'reverse': False, 'filegraph': False, 'procign': False, 'plan': False}
 
 
-def replay(project, config, hist, root, iface, layout_seed=None, keep=False):
-    """Render, build the scheduler, apply the history; returns the trace case fields steps / final."""
+def replay(project, config, hist, root, iface, layout_seed=None, keep=False, defer=False, mvi=False):
+    """Render, build the scheduler, apply the history; returns the trace case fields steps / final.
+    defer: final['link'] holds the compiler job (lib_sched.link_job runs it later, in a thread)."""
     shutil.rmtree(root, ignore_errors=True)
     os.makedirs(os.path.join(root, 'src'))
     lay = L.Layout(random.Random(layout_seed), False) if layout_seed is not None else L.ClassLayout({})
@@ -34,16 +35,25 @@ def replay(project, config, hist, root, iface, layout_seed=None, keep=False):
     cfg_dict, seeds = L.render_config(config, L.Layout(plain=True), enable_imports=True)
     steps = []
     final = {'visits': [], 'raised': '', 'link': 'ok'}
+    # pre-flight: the rendered project itself must compile and link (else the case is a generator artefact, e.g. a module
+    # used before its definition in the same file)
+    calls0 = []
+    for sd in config['seeds']:
+        pr = next((p for p in project['procs'] if p['name'] == sd['local'] and (not sd['q'] or p['mod'] == sd['scope'])), None)
+        calls0.append((pr['mod'] if pr else '', sd['local']))
+    final['preflight'] = L.make_link_job(list(paths.values()), [], calls0, root, tag='0')
+    if not defer:
+        final['preflight'] = L.link_job(final['preflight'])
     try:
         sched = L.build_scheduler(os.path.join(root, 'src'), cfg_dict, seeds, True)
-        steps.append(L.observe_ops_state(sched, paths))
+        steps.append(L.observe_ops_state(sched, paths, mvi))
     except Exception as e:  # pylint: disable=broad-except
         steps.append(dict(L.EMPTY_OBS, raised=f'{type(e.__cause__ or e).__name__}: {str(e)[:200]}'))
         return steps, final
     for op in hist:
         try:
             sched.process(L.make_transformation(op))
-            steps.append(L.observe_ops_state(sched, paths))
+            steps.append(L.observe_ops_state(sched, paths, mvi))
         except Exception as e:  # pylint: disable=broad-except
             steps.append(dict(L.EMPTY_OBS, raised=f'{type(e.__cause__ or e).__name__}: {str(e)[:200]}'))
             return steps, final
@@ -61,7 +71,11 @@ def replay(project, config, hist, root, iface, layout_seed=None, keep=False):
     final['visits'] = [{'unit': v['item'].lower(), 'live': bool(live.get(v['item'].lower(), False))} for v in visits]
     final['raised'] = raised.split(':')[0] if raised else ''
     if not raised:
-        final['link'] = L.write_and_link(sched, paths, last['untouched'], root)
+        job = L.write_sources(sched, paths, last['untouched'], root, mvi)
+        if defer:
+            final['link'] = job
+            return steps, final
+        final['link'] = L.link_job(job)
     if not keep:
         shutil.rmtree(root, ignore_errors=True)
     return steps, final
@@ -113,7 +127,9 @@ def project_sig(P, hist):
     sib = any(p['mod'] and q['mod'] == p['mod'] and p['name'] in ks and p['name'] in q['calls'] and q['name'] != p['name']
               for p in P['procs'] for q in P['procs'])
     kmod = any(p['name'] in ks and p['mod'] for p in P['procs'])
-    return f"multi={int(multi)}:modimp={int(modlevel)}:unq={int(unq)}:ksib={int(sib)}:kmod={int(kmod)}"
+    mvars = {v for m in P['mods'] for v in m['vars']}
+    vimp = any(set(im['only']) & mvars for h in P['procs'] + P['mods'] for im in h['imports'])
+    return f"multi={int(multi)}:modimp={int(modlevel)}:vimp={int(vimp)}:unq={int(unq)}:ksib={int(sib)}:kmod={int(kmod)}"
 
 
 def gen_tlc_cases(ctx, n, maxops):
@@ -158,26 +174,28 @@ def run(ctx):
     phases['model_checking'] = round(ctx.elapsed(), 1)
 
     runs = []     # (replay payload, trace case)
-    budget = time.time() + (75 if quick else 800)
+    budget = time.time() + (60 if quick else 700)
 
-    def add(P, C, hist, iface, origin, modelled, layout=None):
+    def add(P, C, hist, iface, origin, modelled, layout=None, mvi=None):
         root = os.path.join(ctx.work, f'h{len(runs)}')
-        steps, final = replay(P, C, hist, root, iface, layout, keep=bool(os.environ.get('VERIF_KEEP')))
-        runs.append(({'P': P, 'C': C, 'hist': hist, 'iface': iface, 'origin': origin, 'modelled': modelled, 'layout': layout},
+        mvi = len(runs) % 3 == 0 if mvi is None else mvi
+        steps, final = replay(P, C, hist, root, iface, layout, keep=bool(os.environ.get('VERIF_KEEP')), defer=True, mvi=mvi)
+        runs.append(({'P': P, 'C': C, 'hist': hist, 'iface': iface, 'origin': origin, 'modelled': modelled, 'layout': layout, 'mvi': mvi},
                      {'P0': L.tla_project(P), 'C0': C, 'hist': hist, 'steps': steps, 'final': final, 'modelled': modelled}))
 
     if ctx.replay:
         c = ctx.replay['case']
-        add(L.normalize_project(c['P']), L.normalize_config(c['C']), c['hist'], c['iface'], 'replay', c.get('modelled', False), c.get('layout'))
+        add(L.normalize_project(c['P']), L.normalize_config(c['C']), c['hist'], c['iface'], 'replay', c.get('modelled', False), c.get('layout'), c.get('mvi', False))
     else:
         # ---- 2. TLC-sampled members of the modelled universe (preconditions hold): histories <= 3
-        for c in gen_tlc_cases(ctx, 45 if quick else 400, 3):
-            if time.time() > budget and len(runs) >= 25:
+        for c in gen_tlc_cases(ctx, 40 if quick else 400, 3):
+            if time.time() > budget and len(runs) >= 20:
                 break
             P, C = L.normalize_project(c['P']), L.normalize_config(c['C'])
             add(P, C, c['hist'], True, 'tlc', True)
         ntlc = len(runs)
         # ---- 3. seeded larger projects (several units per file, module-level imports, siblings): no preconditions
+        budget += 40 if quick else 300
         legal, yield_ = L.seeded_pairs(ctx, 30 if quick else 300)
         ctx.cover['seeded_candidates_legal'] = yield_
         for i, (P, _) in enumerate(legal):
@@ -193,6 +211,22 @@ def run(ctx):
                 add(P, C, hist, True, 'seeded', False, layout=ctx.seed * 31 + i if i % 2 else None)
         ctx.cover['cases'] = {'tlc_modelled': ntlc, 'seeded': len(runs) - ntlc}
     phases['generate_and_run_loki'] = round(ctx.elapsed() - sum(phases.values()), 1)
+    # gfortran jobs in threads (Loki itself is driven serially)
+    import concurrent.futures as cf
+    jobs = [(i, k, t['final'][k]) for i, (_, t) in enumerate(runs) for k in ('preflight', 'link') if not isinstance(t['final'][k], str)]
+    with cf.ThreadPoolExecutor(max_workers=8) as ex:
+        for (i, k, job), res in zip(jobs, ex.map(lambda j: L.link_job(j[2]), jobs)):
+            runs[i][1]['final'][k] = res
+    if not os.environ.get('VERIF_KEEP'):
+        for _, _, job in jobs:
+            shutil.rmtree(job['workdir'], ignore_errors=True)
+    ctx.cover['gfortran_links'] = len(jobs)
+    dropped = [i for i, (_, t) in enumerate(runs) if t['final']['preflight'] != 'ok']
+    ctx.cover['dropped_by_preflight(original does not compile)'] = len(dropped)
+    if len(dropped) > 0.5 * len(runs) and len(runs) > 4:
+        raise MachineryError(f'pre-flight: {len(dropped)} of {len(runs)} rendered projects do not compile: {runs[dropped[0]][1]["final"]["preflight"]}')
+    runs[:] = [r for i, r in enumerate(runs) if i not in set(dropped)]
+    phases['compile_and_link'] = round(ctx.elapsed() - sum(phases.values()), 1)
 
     verdicts = ctx.validate('Trace_SchedOps', 'Trace_SchedOps', [t for _, t in runs], per_shard_min=20,
                             shards=4 if quick else None, extra_env={'JAVA_TOOL_OPTIONS': '-Xss256m'})
@@ -227,11 +261,13 @@ def run(ctx):
             txt = t['steps'][pos]['raised']
             detail = '[' + txt.split(':')[0] + ']'
         if clause == 'link':
-            detail = '[' + ('undefined' if 'undefined reference' in t['final']['link'] else
-                            'multiple' if 'multiple definition' in t['final']['link'] else
-                            t['final']['link'].split(':')[0]) + ']'
-        key = (f"{clause}{detail}:{'final' if at_final else 'step'}:op={opname}:hist={hist_sig(case['hist'])}:"
-               f"{project_sig(case['P'], case['hist'])}")
+            lk = t['final']['link']
+            detail = '[' + ('undefined' if 'undefined reference' in lk else 'multiple' if 'multiple definition' in lk else
+                            'nomodule' if 'Cannot open module' in lk else 'notinmodule' if 'not found in module' in lk else
+                            'write-raised' if lk.startswith('write-raised') else 'other') + ']'
+        before = sorted({o['op'] + ('s' if o['sub'] else '') for o in case['hist'][:min(pos, len(case['hist'])) - (0 if at_final else 1)]})
+        key = (f"{clause}{detail}:{'final' if at_final else 'step'}:op={'-' if at_final else opname}:after={'+'.join(before) or 'none'}:"
+               f"mvi={int(case['mvi'])}:{project_sig(case['P'], case['hist'])}")
         what = (f'history {json.dumps(case["hist"])[:400]} on the real scheduler rejected by Trace_SchedOps clause `{clause}` '
                 f'{"after the history (later processing / write / link)" if at_final else f"after step {pos} ({opname})"}; origin {case["origin"]}; '
                 f'{t["steps"][min(pos, len(t["steps"]) - 1)]["raised"]} {t["final"]["link"] if clause == "link" else ""}')
@@ -269,7 +305,7 @@ def selftest(ctx):
                                        {'name': 'p2', 'mod': 'm1', 'calls': []}, {'name': 'p3', 'mod': '', 'file': 'p3', 'calls': []}]})
     C = L.make_config(['p1'], routines=[L.routine_entry('p1', role='driver')])
     hist = [L.op_record('dup', 'p3', '_d'), L.op_record('dep', '', '_x', '_mod')]
-    steps, final = replay(P, C, hist, os.path.join(ctx.work, 'st'), True)
+    steps, final = replay(P, C, hist, os.path.join(ctx.work, 'st'), True, mvi=True)
     base = {'P0': L.tla_project(P), 'C0': C, 'hist': hist, 'steps': steps, 'final': final, 'modelled': True}
     cases, expect = [base], ['ok']
     for what in ('drop-node', 'stale-key', 'dead-item', 'drop-call-target', 'link', 'visit-twice', 'undo-suffix'):
